@@ -39,7 +39,9 @@ def build(reg):
         Triple("keeps-leading-letter-noK1", {"value": n(Lang.sym(S.ASCII_LETTERS) + S.NO_K1, "[A-Za-z]NO_K1*")},
                letter_then_keep_nok1, prop=["C09"]),
     ]))
+    nodelim_any = n(Lang.sym(S.ALLC - S.DELIM).plus(), "(any character but . space _ -)+")
     reg.add(StrContract(U + "split_words", [
+        Triple("words-any", {"value": ALL}, PList(nodelim_any, nodelim_any, True), prop=["C09", "C19"]),
         Triple("words", {"value": S.KEEP}, PList(nodelim_word, nodelim_word, True), prop=["C09"]),
         Triple("words-noK1", {"value": KEEP_NOK1}, PList(nodelim_xidc, nodelim_xidc, True), prop=["C09"]),
         Triple("first-word-leading-letter", {"value": letter_then_keep},
